@@ -286,7 +286,7 @@ SELFTEST_DROP = {"ContentPackTrace": "Add", "EntryStoreTrace": "Entry", "EntryOr
                                            and c.get("mode") in ("two", "none") and c.get("entry") == "main" and e["path"] != "main"),
                                     "Loc": ("Loc", lambda e, c: e["pack"] != "d" and c is not None and c.get("mode") in ("two", "none") and c.get("entry") == "main")},
                  "ViewsTrace": "Src",
-                 "IntegrityTrace": None, "AtomicCreateTrace": "Rename", "DecoderTrace": "Buf", "Layout": "Block",
+                 "IntegrityTrace": None, "AtomicCreateTrace": "Rename", "DecoderTrace": ("Publish", lambda e, c, nxt: nxt is not None and nxt["ev"] in ("WaitDone", "Slice")), "Layout": "Block",
                  "PipelineHooksTrace": ("Hook", lambda e: e["name"] == "PDec")}
 
 
@@ -322,7 +322,11 @@ def selftest_corrupt(module, events):
                 last = e
             cfg.append(last)
         for i in order:
-            if pred.__code__.co_argcount == 2:
+            if pred.__code__.co_argcount == 3:
+                # (the next event about the same buffer)
+                nxt = next((evs[j] for j in range(i + 1, min(i + 400, len(evs))) if evs[j].get("buf") == evs[i].get("buf")), None)
+                hit = evs[i]["ev"] == kind and pred(evs[i], cfg[i], nxt)
+            elif pred.__code__.co_argcount == 2:
                 hit = evs[i]["ev"] == kind and pred(evs[i], cfg[i])
             else:
                 hit = evs[i]["ev"] == kind and pred(evs[i])
